@@ -652,3 +652,39 @@ def agg_field_operand(s, field):
         if n == field:
             return o
     return None
+
+
+# ---------------------------------------------------------------------------------------------
+# "this function guarantees a successful call to X before returning Ok"
+
+class Guarantee:
+    """fn_guarantees(F): every path from F's entry to a non-error return takes the success edge of a checked call
+    that is pred() itself or whose every workspace target guarantees it (recursively)."""
+
+    def __init__(self, prog, pred):
+        self.prog = prog
+        self.pred = pred
+        self.memo = {}
+
+    def call(self, c):
+        if self.pred(c):
+            return True
+        ts = self.prog.call_targets(c)
+        return bool(ts) and all(self.fn(t) for t in ts)
+
+    def fn(self, f):
+        st = self.memo.get(f.path)
+        if st is not None:
+            return st if st != "inprogress" else False
+        self.memo[f.path] = "inprogress"
+        gc = [c for c in f.live_calls() if self.call(c)]
+        res = False
+        if gc:
+            edges = success_edges(f, gc)
+            # a tail call whose result *is* the return value also guarantees
+            tail = frozenset(c.bb for c in gc if c.dst and (c.dst[0] == 0 or 0 in result_tests(f, {c.dst[0]})[1]))
+            if edges or tail:
+                r = reach_without_edges(f, 0, edges, err_exit_blocks(f) | tail)
+                res = not any(f.term(b)["k"] == "return" for b in r)
+        self.memo[f.path] = res
+        return res
